@@ -137,7 +137,14 @@ def _withdraw_immature(ctx):
     return ob_release(1, 0, real_kernel=True, pending=True, immature=True)(ctx)
 
 
-OBLIGATIONS = [('withdraw_matured_with_pending_requests', _withdraw_immature), ('unbond_bsei_d1', ob_unbond('b', 1)), ('unbond_stsei_d1', ob_unbond('s', 1)), ('unbond_bsei_d2', ob_unbond('b', 2)),
+def _withdraw_old(ctx):
+    """the holder still has an unpaid claim on an already released batch when the next batch matures (possibly worth nothing,
+    so that the hub balance equals the recorded one); SignedInt::from_subtraction is executed from its real MIR here"""
+    from checks.c01 import ob_release
+    return ob_release(1, 1, real_kernel=True, real_sub=True, only={'release:fails', 'release:share', 'release:removed', 'release:msg'})(ctx)
+
+
+OBLIGATIONS = [('withdraw_matured_with_pending_requests', _withdraw_immature), ('withdraw_released_claim_when_next_batch_matures', _withdraw_old), ('unbond_bsei_d1', ob_unbond('b', 1)), ('unbond_stsei_d1', ob_unbond('s', 1)), ('unbond_bsei_d2', ob_unbond('b', 2)),
                ('unbond_stsei_d2', ob_unbond('s', 2)), ('independent_hub', ob_independent_hub), ('independent_tokens', ob_independent_tokens)]
 
 
